@@ -111,6 +111,9 @@ pub struct Gen<'t> {
     pub next_id: u64,
     pub layout: Layout,
     pub nsteps: usize,
+    /// origin of the event-time axis of this scenario's scripted sources (times relative to a
+    /// reference instant may well be negative)
+    pub ts_base: Option<i64>,
 }
 
 pub fn gen_layout(t: &mut Tape, remote_bias: u32) -> Layout {
@@ -181,6 +184,7 @@ impl<'t> Gen<'t> {
             next_id: 1,
             layout,
             nsteps: 0,
+            ts_base: None,
         }
     }
 
